@@ -1,4 +1,4 @@
-CONSTANTS Addr = {"a", "b", "c"}  Vals = {0, 1, 2, 3}  Types = {"i", "f", "c"}  Max = 20  Window = 2  MaxClock = 100000  Bug = "none"
+CONSTANTS Addr = {"a", "b", "c"}  Vals = {0, 1, 2, 3}  Types = {"i", "f", "c"}  Max = 20  Window = 2  MaxClock = 100000  Bug = "none"  Profile = "free"
 INIT SimInit
 NEXT SimNext
 INVARIANT Book UndoAllRestores RedoAllRestores
